@@ -249,6 +249,14 @@ func genDbcSweep(g *G, k int) *gDbc {
 			sg.factor = "0.5"
 		case 1:
 			sg.factor, sg.offset = "2", "-40"
+		case 2:
+			if L > 1 && L%4 == 0 {
+				sg.min, sg.max = "1", "1e19" // unscaled, the range only raises the lower bound
+			}
+		case 3:
+			if L > 1 && L%4 == 1 {
+				sg.min, sg.max = "-1e19", "2" // unscaled, the range only lowers the upper bound
+			}
 		}
 		return sg
 	}
@@ -454,7 +462,12 @@ func genDbc43(g *G, forceWC int) *gDbc {
 				sg.signed = false
 			}
 			// scaling (never for 1-bit signals with plain types? allowed: the class includes 1-bit x factor)
-			switch g.R.Intn(6) {
+			switch g.R.Intn(8) {
+			case 6:
+				// a range that only raises the lower bound / only lowers the upper bound of an unscaled signal
+				sg.min, sg.max = g.R.Pick("1", "3"), "1e19"
+			case 7:
+				sg.min, sg.max = "-1e19", g.R.Pick("1", "5")
 			case 0:
 				sg.factor = g.R.Pick("0.5", "2", "0.001", "-1", "10", "0.1")
 			case 1:
